@@ -46,8 +46,9 @@ class Inst:
         self.src = []
         self.specs = []
 
-    def add(self, name, unwind, body, family, expect="pass", note=None):
-        self.src.append("#[kani::proof]\n#[kani::unwind(%d)]\nfn %s() {\n    %s\n}\n" % (unwind, name, body))
+    def add(self, name, unwind, body, family, expect="pass", note=None, stub_format=False):
+        st = "#[kani::stub(alloc::fmt::format, stub_format)]\n" if stub_format else ""
+        self.src.append("#[kani::proof]\n%s#[kani::unwind(%d)]\nfn %s() {\n    %s\n}\n" % (st, unwind, name, body))
         self.specs.append(dict(name=TREE_MOD + name, expect=expect, family=family, note=note))
 
 
@@ -56,12 +57,18 @@ def _nn(d):
 
 
 def plan_instances(fams, dumped, want, t):
-    """want: set of families of harnesses to generate: walk, hasext, c02, roundtrip, greedy, toklen, chop"""
+    """want: set of harness families to generate: walk, hasext, c02, roundtrip, greedy, toklen, chop"""
     inst = Inst()
     by = {f["name"]: (f, d) for f, d in zip(fams, dumped)}
     main = [f for f in fams if not f.get("is_sb")]
     quick = t == "quick"
-    for fi, f in enumerate(main):
+    Q_WALK = {"chain": [(2, 0)], "dups": [(2, 0), (2, 1)], "prefix3": [(2, 0), (2, 1)], "marker": [(2, 0)], "rnd0": [(2, 0)], "tiny": [(3, 0), (2, 2)]}
+    Q_WALKF = {"dups", "prefix3"}
+    Q_HASEXT = {"chain": [0, 1], "prefix3": [0, 1], "tiny": [2]}
+    Q_C02 = {"dups", "utf8", "tiny"}
+    Q_RT = {"dups", "marker", "fanout"}
+    Q_TOKLEN = {"dups", "marker"}
+    for f in main:
         n = f["name"]
         d = by[n][1]
         V = len(f["words"])
@@ -71,15 +78,8 @@ def plan_instances(fams, dumped, want, t):
         U = max(nn, V, maxlen, C) + 2
         up = n.upper()
         if "walk" in want:
-            # acceptor sizes: S=2 always; S=3 for small alphabets (thorough: everywhere)
-            variants = []
             if quick:
-                if fi in (0, 1, 2, 3):
-                    variants = [(2, 0)]
-                if fi in (1, 2):
-                    variants += [(2, 1)]
-                if fi == 6:
-                    variants += [(2, 0)]
+                variants = Q_WALK.get(n, [])
             else:
                 variants = [(2, 0), (2, 1), (2, 2)]
                 if C <= 3:
@@ -87,34 +87,38 @@ def plan_instances(fams, dumped, want, t):
             for (S, L) in variants:
                 inst.add("k16_3_walk_%s_s%d_l%d" % (n, S, L), U, "h_walk::<%d, %d, %d>(&trie_%s(), &W_%s, A_%s);" % (S, C, L, n, up, up), "K16.3")
             # filtered tries behave like tries built from the filtered vocabulary
-            if "filtered" in d and ((not quick) or fi in (1, 2)):
+            if "filtered" in d and ((not quick) or n in Q_WALKF):
                 nnf = _nn(d["filtered"])
                 Uf = max(nnf, V, maxlen, C) + 2
                 inst.add("k16_3_walkf_%s_s2_l0" % n, Uf, "h_walk::<2, %d, 0>(&trie_%s_f(), &W_%s_F, A_%s);" % (C, n, up, up), "K16.3f")
                 if not quick:
                     inst.add("k16_3_walkf_%s_s2_l1" % n, Uf, "h_walk::<2, %d, 1>(&trie_%s_f(), &W_%s_F, A_%s);" % (C, n, up, up), "K16.3f")
-        if "hasext" in want and ((not quick) or fi in (0, 2)):
-            for L in ([0, 1] if quick else [0, 1, 2]):
+        if "hasext" in want:
+            for L in (Q_HASEXT.get(n, []) if quick else [0, 1, 2]):
                 inst.add("k16_3_hasext_%s_s2_l%d" % (n, L), U, "h_has_ext::<2, %d, %d>(&trie_%s(), &W_%s, A_%s);" % (C, L, n, up, up), "K16.3h")
-        if "c02" in want and ((not quick) or fi in (0, 1, 2, 4)):
+        if "c02" in want and ((not quick) or n in Q_C02):
             sb = "sb_" + n
             Uc = max(U, maxlen + 2)
             for S in ([2] if (quick or C > 3) else [2, 3]):
                 inst.add("c02_bytes_%s_s%d" % (n, S), Uc, "h_c02::<%d, %d>(&trie_%s(), &W_%s, &trie_%s(), &W_%s, A_%s);" % (S, C, n, up, sb, sb.upper(), up), "C02")
-        if "roundtrip" in want and ((not quick) or fi in (1, 3, 5)):
+        if "roundtrip" in want and ((not quick) or n in Q_RT):
             inst.add("k16_4_roundtrip_%s" % n, U, "h_token_roundtrip(&trie_%s(), &W_%s);" % (n, up), "K16.4")
-            inst.add("k16_4_tokenid_%s" % n, U, "h_token_id_any::<%d>(&trie_%s(), &W_%s, A_%s);" % (C, n, up, up), "K16.4")
-            if (not quick) or fi == 1:
-                inst.add("k16_4_sorted_%s" % n, U + 2, "h_sorted_tokens(&trie_%s(), &W_%s);" % (n, up), "K16.4")
+            for L in ([2] if quick else [1, 2, 3]):
+                inst.add("k16_4_tokenid_%s_l%d" % (n, L), U, "h_token_id_any::<%d, %d>(&trie_%s(), &W_%s, A_%s);" % (C, L, n, up, up), "K16.4")
             if "filtered" in d and not quick:
                 inst.add("k16_4_roundtripf_%s" % n, U, "h_token_roundtrip(&trie_%s_f(), &W_%s_F);" % (n, up), "K16.4f")
-        if "greedy" in want and f.get("byte_complete") and ((not quick) or fi in (2,)):
-            L = 3
-            inst.add("k16_5_greedy_%s_l%d" % (n, L), max(U, L + 2), "h_greedy::<%d, %d>(&trie_%s(), &W_%s, A_%s);" % (C, L, n, up, up), "K16.5")
-        if "toklen" in want and ((not quick) or fi in (1, 3)):
+                inst.add("k16_4_tokenidf_%s_l2" % n, U, "h_token_id_any::<%d, 2>(&trie_%s_f(), &W_%s_F, A_%s);" % (C, n, up, up), "K16.4f")
+        if "greedy_experimental" in want and f.get("byte_complete") and n == "tiny":
+            for L in ((2,) if quick else (2, 3)):
+                inst.add("k16_5_greedy_%s_l%d" % (n, L), max(U, L + 2), "h_greedy::<%d, %d>(&trie_%s(), &W_%s, A_%s);" % (C, L, n, up, up), "K16.5")
+        if "toklen" in want and ((not quick) or n in Q_TOKLEN):
             inst.add("k16_6_toklen_%s" % n, max(12, V + 2), "h_token_len(&trie_%s(), &W_%s);" % (n, up), "K16.6")
-        if "chop" in want and f.get("byte_complete") and "marker" not in n and ((not quick and fi < 8) or fi in (2,)):
-            inst.add("k13_1_chop_%s_s2_n1" % n, max(U, 18), "h_chop::<2, %d, 1>(&trie_%s(), &W_%s, A_%s);" % (C, n, up, up), "K13.1")
+        if "chop_experimental" in want and f.get("byte_complete") and n == "tiny":
+            inst.add("k13_1_chop_%s_s2_n1" % n, max(U, 8), "h_chop::<2, %d, 1>(&trie_%s(), &W_%s, A_%s);" % (C, n, up, up), "K13.1", stub_format=True)
+            if not quick:
+                inst.add("k13_1_chop_%s_s2_n2" % n, max(U, 8), "h_chop::<2, %d, 2>(&trie_%s(), &W_%s, A_%s);" % (C, n, up, up), "K13.1", stub_format=True)
+    inst.specs.append(dict(name=TREE_MOD + "k16_2_node_packing", expect="pass", family="K16.2"))
+    inst.specs.append(dict(name=TREE_MOD + "k16_2_witness_must_fail", expect="fail", family="K16.2"))
     return inst
 
 
